@@ -139,6 +139,13 @@ def prove(ctx, prop_mods):
         path = os.path.join(LEAN, *pm.split(".")) + ".lean"
         all_names += theorem_names(path)
     ctx.obligations = all_names
+    if getattr(ctx, "extract_deferred", None):
+        reach = set()
+        for pm in prop_mods:
+            reach |= set(lean_imports_closure(pm))
+        for e in ctx.extract_deferred:
+            if "Oq3.Gen." + e.split(":", 1)[0] in reach:
+                ctx.broken_theorems.append(f"extraction: {e}")
     ok, log = lake_build(prop_mods + ["driver"])
     ctx.lake_ok = ok
     if not ok:
@@ -155,7 +162,8 @@ def prove(ctx, prop_mods):
                     mm = re.match(r"(?:@\[[^\]]*\]\s*)?theorem\s+([^\s:({\[]+)", lines[k])
                     if mm:
                         bad.add(mm.group(1)); break
-        ctx.broken_theorems = sorted(bad) or ["<build failed before the property module: see log>"]
+        ctx.broken_theorems = [b for b in ctx.broken_theorems if b.startswith("extraction: ")] + (
+            sorted(bad) or ["<build failed before the property module: see log>"])
         ctx.log("lake build FAILED; broken:", ctx.broken_theorems)
         ctx.discharged = []
         return False
@@ -471,7 +479,16 @@ def extract(ctx, names=None):
     ctx.extract_changed, ctx.extract_errors = changed, errors
     if changed:
         ctx.notes.append(f"translated tables changed since the last run: {changed}")
+    # a table that only SOME theorem modules import (StdGates: the modules above Oq3/Model/Symbols) breaks only the
+    # properties whose modules import it: decided in prove(), which knows the property's module list
+    ctx.extract_deferred = [e for e in errors if e.split(":", 1)[0] in DEFERRED_TABLES]
+    errors = [e for e in errors if e.split(":", 1)[0] not in DEFERRED_TABLES]
+    if ctx.extract_deferred:
+        ctx.notes.append(f"extraction failed (counts for the properties whose theorem modules import the table): {ctx.extract_deferred}")
     if errors:
         ctx.notes.append(f"extraction failed: {errors}")
         ctx.broken_theorems += [f"extraction: {e}" for e in errors]
     return not errors
+
+
+DEFERRED_TABLES = {"StdGates"}
